@@ -211,6 +211,10 @@ pub enum Routing {
     CustomConst,
     CustomIdentity,
     CustomMax,
+    /// QueuerRouting / KeyPersistentRouting behind a RateLimitedRouter with a leaky bucket
+    /// (1 token per 10 ms, at most 2, 1 to begin with)
+    RlQueuer,
+    RlKeyPersistent,
 }
 
 #[derive(Clone, Copy, Debug, PartialEq, Eq)]
@@ -278,7 +282,10 @@ impl Cfg {
         format!("{:?}/{:?}/w{}/d{}{}{mode}{q}{}{}", self.routing, self.discard, self.workers, self.depth, if self.ttl { "/ttl" } else { "" }, if self.set_limit { "/setlimit" } else { "" }, if self.flow_only { "/flow3keys" } else { "" }).replace(['(', ')'], "")
     }
     pub fn factory_queueing(&self) -> bool {
-        matches!(self.routing, Routing::Sticky | Routing::Queuer)
+        matches!(self.routing, Routing::Sticky | Routing::Queuer | Routing::RlQueuer)
+    }
+    pub fn rate_limited(&self) -> bool {
+        matches!(self.routing, Routing::RlQueuer | Routing::RlKeyPersistent)
     }
 }
 
@@ -331,6 +338,12 @@ async fn spawn_factory_q<R: Router<Key, JobMsg>, Q: Queue<Key, JobMsg>>(router: 
     Actor::spawn(None, f, args).await.expect("factory")
 }
 
+pub const RL_MAX: usize = 2;
+pub const RL_INITIAL: usize = 1;
+fn bucket() -> LeakyBucketRateLimiter {
+    LeakyBucketRateLimiter::builder().refill(1).interval(Duration::from_millis(10)).max(RL_MAX).initial(RL_INITIAL).build()
+}
+
 async fn spawn_for(cfg: Cfg, world: &World) -> (FRef, ractor::concurrency::JoinHandle<()>) {
     match cfg.routing {
         Routing::KeyPersistent => spawn_factory(KeyPersistentRouting::<Key, JobMsg>::default(), cfg, world).await,
@@ -340,6 +353,8 @@ async fn spawn_for(cfg: Cfg, world: &World) -> (FRef, ractor::concurrency::JoinH
         Routing::CustomConst => spawn_factory(CustomRouting::<Key, JobMsg, _>::new(HashConst), cfg, world).await,
         Routing::CustomIdentity => spawn_factory(CustomRouting::<Key, JobMsg, _>::new(HashIdentity), cfg, world).await,
         Routing::CustomMax => spawn_factory(CustomRouting::<Key, JobMsg, _>::new(HashMax), cfg, world).await,
+        Routing::RlQueuer => spawn_factory(RateLimitedRouter::builder().router(QueuerRouting::<Key, JobMsg>::default()).rate_limiter(bucket()).build(), cfg, world).await,
+        Routing::RlKeyPersistent => spawn_factory(RateLimitedRouter::builder().router(KeyPersistentRouting::<Key, JobMsg>::default()).rate_limiter(bucket()).build(), cfg, world).await,
     }
 }
 
@@ -494,7 +509,7 @@ pub async fn run(cfg: Cfg) -> Run {
                 }
             }
         }
-        if cfg.ttl {
+        if cfg.ttl || cfg.rate_limited() {
             en.push(Event::Advance);
         }
         // debugging aid: FACTORY_HISTORY="D0,D0,KF0,D0" pins the history
@@ -776,6 +791,10 @@ pub fn plan(property: &'static str, tier: &str) -> Plan {
             continue;
         }
         cfgs.push((Cfg { routing: r, discard: Discard::None, workers: 2, depth: if thorough { 8 } else { 6 }, ttl: false, lean: true, burst: false, queue: QueueKind::Default, set_limit: false, flow_only: true }, 0));
+    }
+    // a leaky-bucket rate limiter in front of the router; the history may let 150 ms pass (refill to the cap)
+    for r in [Routing::RlQueuer, Routing::RlKeyPersistent] {
+        cfgs.push((Cfg { routing: r, discard: Discard::None, workers: 2, depth: if thorough { 7 } else { 5 }, ttl: false, lean: true, burst: false, queue: QueueKind::Default, set_limit: false, flow_only: false }, 0));
     }
     // the discard limit changes under way (UpdateSettings)
     if property == "C15" || thorough {
